@@ -232,16 +232,21 @@ Definition pat_section (version : Z) : PSISection :=
     {| PSISectionSyntaxData_EIT := None; PSISectionSyntaxData_NIT := None; PSISectionSyntaxData_PAT := Some pat_data;
        PSISectionSyntaxData_PMT := None; PSISectionSyntaxData_SDT := None; PSISectionSyntaxData_TOT := None |}.
 
-Definition pmt_data (s : mstate) : PMTData :=
-  {| PMTData_ElementaryStreams := ms_streams s;
-     PMTData_PCRPID := ms_pcr_pid s;
+(* m.pmt as generatePMT sees it *)
+Definition pmt_data_of (streams : list PMTElementaryStream) (pcr : Z) : PMTData :=
+  {| PMTData_ElementaryStreams := streams;
+     PMTData_PCRPID := pcr;
      PMTData_ProgramDescriptors := [];
      PMTData_ProgramNumber := C_programNumberStart |}.
 
-Definition pmt_section (s : mstate) (version : Z) : PSISection :=
-  table_section C_PSITableIDPMT (calc_pmt_section_length (pmt_data s)) (PMTData_ProgramNumber (pmt_data s)) version
+Definition pmt_section_of (streams : list PMTElementaryStream) (pcr version : Z) : PSISection :=
+  let d := pmt_data_of streams pcr in
+  table_section C_PSITableIDPMT (calc_pmt_section_length d) (PMTData_ProgramNumber d) version
     {| PSISectionSyntaxData_EIT := None; PSISectionSyntaxData_NIT := None; PSISectionSyntaxData_PAT := None;
-       PSISectionSyntaxData_PMT := Some (pmt_data s); PSISectionSyntaxData_SDT := None; PSISectionSyntaxData_TOT := None |}.
+       PSISectionSyntaxData_PMT := Some d; PSISectionSyntaxData_SDT := None; PSISectionSyntaxData_TOT := None |}.
+
+Definition pmt_section (s : mstate) (version : Z) : PSISection :=
+  pmt_section_of (ms_streams s) (ms_pcr_pid s) version.
 
 Definition table_packet (pid cc : Z) (payload : list Z) : Packet :=
   {| Packet_AdaptationField := None; Packet_Header := mk_header pid cc false true true; Packet_Payload := payload |}.
